@@ -264,6 +264,8 @@ typedef struct sim_msg
   unsigned char      *data;     /* packed copy */
   unsigned long       seq;      /* global send order */
   struct sim_req     *sreq;     /* send request completed by the match, or NULL */
+  struct sim_req     *ureq;     /* nonblocking send request not yet handed back to its owner: the user's
+                                   send buffer still belongs to MPI (see sendbuf_check) */
 }
 sim_msg;
 
@@ -286,6 +288,10 @@ typedef struct sim_req
   int                 dest, stag, mode;
   size_t              nbytes;
   sim_msg            *msg;      /* while unmatched */
+  const void         *ubuf;     /* nonblocking send: the user's buffer, datatype, count ... */
+  sim_dtype          *udt;
+  int                 ucount;
+  sim_msg            *lmsg;     /* ... and the message while it has not been delivered */
   /* recv */
   void               *buf;
   int                 count;
@@ -948,6 +954,10 @@ req_handle (sim_req * q)
 static void
 req_release (sim_req * q)
 {
+  if (q->lmsg != NULL) {
+    q->lmsg->ureq = NULL;
+    q->lmsg = NULL;
+  }
   S.reqs[q->idx] = NULL;
   free (q);
 }
@@ -1491,6 +1501,10 @@ coll_free (sim_coll * k)
 static void
 msg_free (sim_msg * m)
 {
+  if (m->ureq != NULL) {
+    m->ureq->lmsg = NULL;
+    m->ureq = NULL;
+  }
   free (m->data);
   free (m);
 }
@@ -1747,15 +1761,44 @@ status_procnull (MPI_Status * st)
   }
 }
 
+/* MPI owns the buffer of a nonblocking send until the request has been handed back by Wait/Test: a conforming
+ * library may read it as late as that.  The simulator packs at posting time; here - when the receiver takes the
+ * message while the sender has not completed its request, and when the sender completes the request while the
+ * message is still under way - the buffer is read AGAIN.  If it changed, the late content is what travels (as with a
+ * single-copy rendezvous transfer) and the run is marked erroneous.  A buffer freed in the meantime is reported by
+ * the address sanitizer. */
+static void
+sendbuf_check (sim_msg * m, const char *fname)
+{
+  sim_req            *q = m->ureq;
+  unsigned char      *now;
+  size_t              nb = 0;
+
+  if (q == NULL || q->ubuf == NULL || m->nbytes == 0) {
+    return;
+  }
+  now = dt_pack_new (q->ubuf, q->udt, (size_t) q->ucount, &nb);
+  if (nb == m->nbytes && memcmp (now, m->data, nb) != 0) {
+    sim_error (MPI_ERR_BUFFER,
+               "%s: the buffer of the nonblocking send %d -> %d tag %d comm %d (%zu bytes) was modified "
+               "before the send request was completed by its owner", fname, m->src, m->dst, m->tag,
+               m->comm->id, m->nbytes);
+    memcpy (m->data, now, nb);
+  }
+  free (now);
+}
+
 /* copy a matched message into the user's receive buffer */
 static int
 deliver (sim_msg * m, void *buf, int count, sim_dtype * dt, MPI_Status * st,
          const char *fname)
 {
   size_t              cap = (size_t) count * dt->size;
-  size_t              n = m->nbytes < cap ? m->nbytes : cap;
+  size_t              n;
   int                 err = MPI_SUCCESS;
 
+  sendbuf_check (m, fname);
+  n = m->nbytes < cap ? m->nbytes : cap;
   dt_unpack (buf, m->data, dt, n);
   if (m->nbytes > cap) {
     err =
@@ -1896,6 +1939,11 @@ do_send (const char *fname, const void *buf, int count, MPI_Datatype dth,
   }
 
   if (request != NULL) {
+    q->ubuf = buf;
+    q->udt = dt;
+    q->ucount = count;
+    q->lmsg = m;
+    m->ureq = q;
     *request = req_handle (q);
     if (tr_begin (fname, c)) {
       tr_i ("dest", dest);
@@ -2330,6 +2378,10 @@ req_finish (sim_req * q, int index, MPI_Status * st, sbuf * done,
     coll_leave (q->coll);
     break;
   default:
+    if (q->kind == RK_SEND && q->lmsg != NULL) {
+      /* the message is still under way: what it carries is fixed now */
+      sendbuf_check (q->lmsg, fname);
+    }
     status_empty (st);
     break;
   }
@@ -5781,6 +5833,10 @@ cleanup (void)
     if (S.reqs[i] != NULL) {
       if (S.reqs[i]->matched != NULL) {
         msg_free (S.reqs[i]->matched);
+      }
+      if (S.reqs[i]->lmsg != NULL) {
+        S.reqs[i]->lmsg->ureq = NULL;
+        S.reqs[i]->lmsg = NULL;
       }
       free (S.reqs[i]);
     }
